@@ -96,7 +96,7 @@ def cases(tier, seed):
     others = [('TinySSH', 'noversion', 'tinyssh_noversion'), ('PuTTY', '0.80', 'PuTTY_Release_0.80'), (None, None, 'FooSSH_1.0'), (None, None, 'Cisco-1.25'), (None, None, None), ('TinySSH', '20240101', 'tinyssh_20240101')]
     cs = []
     n = 220 if tier == 'quick' else 4000
-    profiles = ['db', 'db', 'sizes', 'terrapin', 'gss', 'unknown', 'big', 'weak']
+    profiles = ['db', 'asym', 'sizes', 'terrapin', 'gss', 'unknown', 'big', 'weak', 'db', 'asym-weak']
     for i in range(n):
         if i % 6 == 5:
             prod, w, sw = others[(i // 6) % len(others)]
@@ -131,6 +131,15 @@ def build(c):
             k['kex'] = k['kex'] + ['kex-strict-s-v00@openssh.com']
     else:
         k = gen.random_kex(rng, names, {'db': 1}, (2, 9))
+    if prof in ('asym', 'asym-weak'):
+        # different lists per direction: the report (and therefore the recommendations) is about the server-to-client lists
+        k['enc_cs'] = gen.pick_names(rng, 'enc', names, rng.randint(1, 5), {'db': 1})
+        k['mac_cs'] = gen.pick_names(rng, 'mac', names, rng.randint(1, 5), {'db': 1})
+        if prof == 'asym-weak':
+            k['mac_sc'] = ['hmac-sha2-256-etm@openssh.com', 'umac-128-etm@openssh.com', 'hmac-md5', 'hmac-sha1']
+            k['mac_cs'] = ['hmac-sha2-256-etm@openssh.com', 'hmac-sha2-512-etm@openssh.com']
+            k['enc_sc'] = ['aes256-gcm@openssh.com', '3des-cbc', 'aes128-ctr']
+            k['enc_cs'] = ['aes256-gcm@openssh.com', 'aes256-ctr']
     if prof == 'sizes':
         k['key'] = rng.sample(['ssh-rsa', 'rsa-sha2-256', 'rsa-sha2-512', 'ssh-ed25519'], 3)
         k['kex'] = ['curve25519-sha256'] + rng.sample(['diffie-hellman-group-exchange-sha256', 'diffie-hellman-group-exchange-sha1'], rng.randint(1, 2)) + k['kex'][:2]
